@@ -2,11 +2,11 @@
 //! `NotificationHandle`, `NotificationSink`, `Connection` and `Substream` of litep2p over
 //! scripted in-memory carriers. Case/trace format: see coq/C12/Glue.v.
 use crate::util::*;
-use futures::{FutureExt, StreamExt};
+use futures::{future::BoxFuture, FutureExt, StreamExt};
 use litep2p::{
     codec::ProtocolCodec,
     protocol::notification::{
-        verif::{new_handle, ProtocolSide},
+        verif::{new_handle, take_pops, ProtocolSide},
         NotificationCommand, NotificationError, NotificationEvent, NotificationHandle,
         NotificationSink,
     },
@@ -92,7 +92,7 @@ impl Pipe {
                 }
                 Some(r) => {
                     if self.first {
-                        self.modes.push(b == 1);
+                        self.modes.push(b & 1 == 1);
                         self.first = false;
                     }
                     if r == 1 {
@@ -309,8 +309,18 @@ impl World {
 
     fn retire(&mut self) {
         if let Some(p) = self.cur.take() {
-            self.hints.push(p.ab.lock().unwrap().modes.clone());
             self.old.push(p);
+        }
+    }
+
+    /// One hint list per Connection in creation order (B's, then A's, per period): the queue
+    /// choices of its select!, read from the log kept by the cfg(verif) hook.
+    fn collect_hints(&mut self) {
+        let pops = take_pops();
+        for p in self.old.iter() {
+            for id in [p._b_sink.verif_stream_id(), p.a_probe.verif_stream_id()] {
+                self.hints.push(pops.iter().filter(|(s, _)| *s == id).map(|(_, m)| *m).collect());
+            }
         }
     }
 
@@ -582,6 +592,7 @@ async fn run_actions(cfg: [u64; 5], acts: &[Vec<u64>]) -> (Vec<u64>, Vec<Vec<boo
         w.dump(&mut out);
     }
     w.retire();
+    w.collect_hints();
     // a panic inside a Connection task must not pass for a clean close
     for p in w.old.iter_mut() {
         for t in [&mut p.a_task, &mut p.b_task] {
@@ -606,6 +617,7 @@ fn run_case(c: &[u64]) -> (Vec<u64>, Vec<u64>) {
     let Some((cfg, acts)) = parse_case(c) else {
         return (c.to_vec(), vec![0]);
     };
+    let _ = take_pops();
     let r = catch_unwind(AssertUnwindSafe(|| {
         let rt = tokio::runtime::Builder::new_current_thread().enable_all().build().unwrap();
         rt.block_on(run_actions(cfg, &acts))
@@ -616,6 +628,721 @@ fn run_case(c: &[u64]) -> (Vec<u64>, Vec<u64>) {
     }
 }
 
+// ---------------------------------------------------------------- scheduler stream
+//
+// Every process is stepped explicitly: a Connection task is polled exactly once per `Conn` step, a
+// send_async future once per `AsyncStart`/`AsyncPoll` step, a handle once per `Handle` step (with
+// the cooperative budget the step names). Nothing is spawned; wake-ups play no part.
+
+const SCHED_MARK: u64 = 9001;
+/// Budget value of a Connection poll that runs under `tokio::task::unconstrained`.
+const UNLIMITED: u64 = 1_000_000;
+
+type SendFut = Pin<Box<dyn Future<Output = Result<(), ()>> + Send>>;
+
+struct SEp {
+    peer: PeerId, // the remote peer as seen from this endpoint
+    handle: NotificationHandle,
+    side: ProtocolSide,
+    conn: Option<BoxFuture<'static, ()>>,
+    shutdown: Option<oneshot::Sender<()>>,
+    probe: Option<NotificationSink>,
+    keep: Vec<NotificationSink>,
+    per: u64,     // period of the current / last Connection
+    sink_per: Option<u64>,
+    futs: Vec<(u64, SendFut)>,
+    nyes: u64,
+}
+
+struct SWorld {
+    cfg: [[u64; 5]; 2], // [B, A] indexed by x (0 = B, 1 = A)
+    eps: Vec<SEp>,      // index x
+    per: u64,
+    pipes: Option<[Arc<Mutex<Pipe>>; 2]>, // index x: outbound carrier of x
+    conn_ids: Vec<usize>,                 // stream identifier of every Connection, in creation order
+}
+
+fn spayload(from_a: bool, per: u64, sync: bool, tag: u64, len: u64) -> Vec<u8> {
+    let mut v = vec![0u8; len as usize];
+    v[0] = sync as u8 | (from_a as u8) << 1;
+    v[1] = per as u8;
+    v[2] = tag as u8;
+    v[3] = (tag >> 8) as u8;
+    v
+}
+
+fn poll_once<F: Future + Unpin>(f: &mut F) -> Option<F::Output> {
+    let mut f = tokio::task::unconstrained(f);
+    let waker = futures::task::noop_waker();
+    let mut cx = Context::from_waker(&waker);
+    match Pin::new(&mut f).poll(&mut cx) {
+        Poll::Ready(v) => Some(v),
+        Poll::Pending => None,
+    }
+}
+
+impl SWorld {
+    fn new(cfg_a: [u64; 5], cfg_b: [u64; 5]) -> Self {
+        let proto = ProtocolName::from("/verif/notif/1");
+        let mk = |c: &[u64; 5], remote: PeerId| {
+            let (handle, side) = new_handle(proto.clone(), 1024, c[2] as usize, c[3] as usize);
+            SEp {
+                peer: remote,
+                handle,
+                side,
+                conn: None,
+                shutdown: None,
+                probe: None,
+                keep: Vec::new(),
+                per: 0,
+                sink_per: None,
+                futs: Vec::new(),
+                nyes: 0,
+            }
+        };
+        let (pa, pb) = (PeerId::random(), PeerId::random());
+        SWorld {
+            cfg: [cfg_b, cfg_a],
+            eps: vec![mk(&cfg_b, pa), mk(&cfg_a, pb)],
+            per: 0,
+            pipes: None,
+            conn_ids: Vec::new(),
+        }
+    }
+
+    fn alive(&self, x: usize) -> bool {
+        self.eps[x].conn.is_some()
+    }
+
+    async fn open_ep(&mut self, x: usize) {
+        let p = self.per;
+        let pipes = self.pipes.as_ref().unwrap();
+        let (out, inp) = (pipes[x].clone(), pipes[1 - x].clone());
+        let max = Some(self.cfg[x][4] as usize);
+        let peer = self.eps[x].peer;
+        let sub = |id: usize, io: Box<dyn litep2p::substream::verif::VerifIo>| {
+            Substream::verif_new(peer, SubstreamId::from(id), io, ProtocolCodec::UnsignedVarint(max))
+        };
+        let (fut, shutdown, sink) = self.eps[x]
+            .side
+            .open(
+                peer,
+                sub(1, Box::new(REnd(inp))),
+                sub(2, Box::new(WEnd(out))),
+                self.cfg[x][0] as usize,
+                self.cfg[x][1] as usize,
+                vec![p as u8],
+            )
+            .await;
+        let e = &mut self.eps[x];
+        e.conn = Some(fut);
+        e.shutdown = Some(shutdown);
+        e.keep.push(sink.clone());
+        self.conn_ids.push(sink.verif_stream_id());
+        let e = &mut self.eps[x];
+        e.probe = Some(sink);
+        e.per = p;
+    }
+
+    async fn open_stream(&mut self, x: usize) -> u64 {
+        if self.alive(x) {
+            return 1;
+        }
+        if self.eps[x].per < self.per {
+            self.open_ep(x).await;
+            return 0;
+        }
+        if !self.alive(1 - x) && self.eps[1 - x].per == self.per {
+            self.per += 1;
+            self.pipes = Some([Pipe::new(), Pipe::new()]);
+            self.open_ep(x).await;
+            return 0;
+        }
+        1
+    }
+
+    fn kill(&mut self) {
+        if let Some(pipes) = &self.pipes {
+            for p in pipes.iter() {
+                let mut g = p.lock().unwrap();
+                g.killed = true;
+                g.buf.clear();
+                g.read = g.written;
+                g.wake();
+            }
+        }
+    }
+
+    fn dump(&mut self, out: &mut Vec<u64>) {
+        for x in [0usize, 1] {
+            while self.eps[x].side.shutdown_rx.try_recv().is_ok() {
+                self.eps[x].nyes += 1;
+            }
+        }
+        let free = |e: &SEp| match (&e.probe, e.conn.is_some()) {
+            (Some(p), true) => {
+                let (s, a) = p.verif_free();
+                (s as u64, a as u64)
+            }
+            _ => (0, 0),
+        };
+        let (sa, aa) = free(&self.eps[1]);
+        let (sb, ab) = free(&self.eps[0]);
+        let car = |x: usize| match &self.pipes {
+            Some(p) => p[x].lock().unwrap().frames_buffered(),
+            None => 0,
+        };
+        out.extend([
+            self.alive(1) as u64,
+            self.alive(0) as u64,
+            sa,
+            aa,
+            sb,
+            ab,
+            self.eps[1].side.notif_free() as u64,
+            self.eps[0].side.notif_free() as u64,
+            car(1),
+            car(0),
+            self.eps[1].side.command_rx.len() as u64,
+            self.eps[0].side.command_rx.len() as u64,
+            self.eps[0].nyes + self.eps[1].nyes,
+            0,
+        ]);
+    }
+}
+
+fn parse_sched(c: &[u64]) -> Option<([u64; 5], [u64; 5], Vec<Vec<u64>>)> {
+    if c.len() < 12 || c[0] != SCHED_MARK {
+        return None;
+    }
+    let ca = [c[1], c[2], c[3], c[4], c[5]];
+    let cb = [c[6], c[7], c[8], c[9], c[10]];
+    for e in [&ca, &cb] {
+        if e[..4].iter().any(|v| *v == 0 || *v > 4096) {
+            return None;
+        }
+    }
+    let n = c[11] as usize;
+    let mut i = 12;
+    let mut steps = Vec::new();
+    for _ in 0..n {
+        let tag = *c.get(i)?;
+        let l = match tag {
+            0 => 4,
+            1 => 5,
+            2 | 3 | 4 | 5 => 3,
+            6 | 7 | 8 | 11 => 2,
+            9 => 4,
+            10 => 1,
+            _ => return None,
+        };
+        if i + l > c.len() {
+            return None;
+        }
+        let a = c[i..i + l].to_vec();
+        let sz = match tag {
+            0 => Some((a[2], a[3])),
+            1 => Some((a[3], a[4])),
+            _ => None,
+        };
+        if let Some((t, len)) = sz {
+            if len < 4 || len > 1 << 22 || t >= 65536 {
+                return None;
+            }
+        }
+        if tag == 5 && a[2] > 128 {
+            return None;
+        }
+        if tag == 4 && a[2] > 128 && a[2] != UNLIMITED {
+            return None;
+        }
+        steps.push(a);
+        i += l;
+    }
+    Some((ca, cb, steps))
+}
+
+fn encode_sched(ca: &[u64; 5], cb: &[u64; 5], steps: &[Vec<u64>], hints: &[Vec<bool>]) -> Vec<u64> {
+    let mut c = vec![SCHED_MARK];
+    c.extend(ca);
+    c.extend(cb);
+    c.push(steps.len() as u64);
+    for a in steps {
+        c.extend(a);
+    }
+    c.push(hints.len() as u64);
+    for h in hints {
+        c.push(h.len() as u64);
+        c.extend(h.iter().map(|b| *b as u64));
+    }
+    c
+}
+
+fn enc_event(e: Option<Option<NotificationEvent>>, out: &mut Vec<u64>, sink_per: &mut Option<u64>) {
+    match e {
+        None => out.push(0),
+        Some(Some(NotificationEvent::NotificationStreamOpened { handshake, .. })) => {
+            *sink_per = Some(handshake[0] as u64);
+            out.extend([1, handshake[0] as u64]);
+        }
+        Some(Some(NotificationEvent::NotificationStreamClosed { .. })) => {
+            *sink_per = None;
+            out.push(2);
+        }
+        Some(Some(NotificationEvent::NotificationReceived { notification, .. })) => {
+            let n = &notification;
+            let tag = n[2] as u64 | (n[3] as u64) << 8;
+            out.extend([3, (n[0] >> 1 & 1) as u64, n[1] as u64, (n[0] & 1) as u64, tag, n.len() as u64]);
+        }
+        Some(_) => out.push(9),
+    }
+}
+
+/// What the step generator may look at: the pending send_async futures of each endpoint, whether its
+/// handle holds a sink and whether its Connection task is alive (index x: 0 = B, 1 = A).
+#[derive(Default)]
+struct Feedback {
+    pending: [Vec<u64>; 2],
+    open: [bool; 2],
+    alive: [bool; 2],
+}
+
+trait StepSrc {
+    fn next(&mut self, fb: &Feedback) -> Option<Vec<u64>>;
+}
+
+struct Fixed(std::collections::VecDeque<Vec<u64>>);
+impl StepSrc for Fixed {
+    fn next(&mut self, _: &Feedback) -> Option<Vec<u64>> {
+        self.0.pop_front()
+    }
+}
+
+async fn run_steps(
+    ca: [u64; 5],
+    cb: [u64; 5],
+    src: &mut dyn StepSrc,
+) -> (Vec<Vec<u64>>, Vec<u64>, Vec<Vec<bool>>) {
+    let mut w = SWorld::new(ca, cb);
+    let mut out = vec![2u64];
+    let mut done: Vec<Vec<u64>> = Vec::new();
+    let mut fb = Feedback::default();
+    while let Some(a) = src.next(&fb) {
+        let a = &a;
+        done.push(a.clone());
+        let x = a.get(1).copied().unwrap_or(0).min(1) as usize;
+        match a[0] {
+            0 => {
+                let e = &mut w.eps[x];
+                let r = if e.handle.notification_sink(e.peer).is_none() {
+                    let _ = e.handle.send_sync_notification(e.peer, spayload(x == 1, 0, true, a[2], a[3]));
+                    3
+                } else {
+                    let per = e.sink_per.unwrap_or(0);
+                    match e.handle.send_sync_notification(e.peer, spayload(x == 1, per, true, a[2], a[3])) {
+                        Ok(()) => 0,
+                        Err(NotificationError::ChannelClogged) => 1,
+                        Err(NotificationError::NoConnection) => 2,
+                        Err(_) => 9,
+                    }
+                };
+                out.push(r);
+            }
+            1 => {
+                let e = &mut w.eps[x];
+                let r = if e.futs.iter().any(|(id, _)| *id == a[2]) {
+                    5
+                } else {
+                    match e.handle.notification_sink(e.peer) {
+                        None => 3,
+                        Some(sink) => {
+                            let p = spayload(x == 1, e.sink_per.unwrap_or(0), false, a[3], a[4]);
+                            let mut f: SendFut =
+                                Box::pin(async move { sink.send_async_notification(p).await.map_err(|_| ()) });
+                            match poll_once(&mut f) {
+                                Some(Ok(())) => 0,
+                                Some(Err(())) => 2,
+                                None => {
+                                    e.futs.push((a[2], f));
+                                    4
+                                }
+                            }
+                        }
+                    }
+                };
+                out.push(r);
+            }
+            2 => {
+                let e = &mut w.eps[x];
+                let r = match e.futs.iter().position(|(id, _)| *id == a[2]) {
+                    None => 5,
+                    Some(i) => match poll_once(&mut e.futs[i].1) {
+                        Some(Ok(())) => {
+                            drop(e.futs.remove(i));
+                            0
+                        }
+                        Some(Err(())) => {
+                            drop(e.futs.remove(i));
+                            2
+                        }
+                        None => 4,
+                    },
+                };
+                out.push(r);
+            }
+            3 => {
+                let e = &mut w.eps[x];
+                let r = match e.futs.iter().position(|(id, _)| *id == a[2]) {
+                    None => 5,
+                    Some(i) => {
+                        drop(e.futs.remove(i));
+                        0
+                    }
+                };
+                out.push(r);
+            }
+            4 => {
+                // one poll of the Connection task: unconstrained (budget UNLIMITED) or under a cooperative
+                // budget of a[2] <= 128 operations
+                let b = a[2];
+                let mut done = false;
+                if w.eps[x].conn.is_some() {
+                    if b == UNLIMITED {
+                        done = poll_once(w.eps[x].conn.as_mut().unwrap()).is_some();
+                    } else {
+                        tokio::task::yield_now().await;
+                        for _ in 0..(128 - b.min(128)) {
+                            tokio::task::coop::consume_budget().await;
+                        }
+                        let waker = futures::task::noop_waker();
+                        let mut cx = Context::from_waker(&waker);
+                        done = w.eps[x].conn.as_mut().unwrap().as_mut().poll(&mut cx).is_ready();
+                        tokio::task::yield_now().await;
+                        // close_connection is atomic in the model: a task that has begun to close (its
+                        // outbound substream is shut down) and ran out of budget is polled until it is done
+                        let closing = w.pipes.as_ref().map(|p| p[x].lock().unwrap().wclosed).unwrap_or(false);
+                        if !done && closing {
+                            for _ in 0..8 {
+                                if poll_once(w.eps[x].conn.as_mut().unwrap()).is_some() {
+                                    done = true;
+                                    break;
+                                }
+                            }
+                        }
+                    }
+                }
+                let e = &mut w.eps[x];
+                if done {
+                    e.conn = None;
+                    e.shutdown = None;
+                }
+                out.push(if e.conn.is_some() { 0 } else { 1 });
+            }
+            5 => {
+                // a fresh budget of 128, lowered to the requested value
+                tokio::task::yield_now().await;
+                for _ in 0..(128 - a[2]) {
+                    tokio::task::coop::consume_budget().await;
+                }
+                let e = &mut w.eps[x];
+                let ev = e.handle.next().now_or_never();
+                enc_event(ev, &mut out, &mut e.sink_per);
+                tokio::task::yield_now().await;
+            }
+            6 => {
+                let r = tokio::task::unconstrained(w.open_stream(x)).await;
+                out.push(r);
+            }
+            7 => {
+                let e = &mut w.eps[x];
+                if e.conn.is_some() {
+                    if let Some(tx) = e.shutdown.take() {
+                        let _ = tx.send(());
+                    }
+                    out.push(0);
+                } else {
+                    out.push(1);
+                }
+            }
+            8 => match w.eps[x].side.command_rx.try_recv() {
+                Ok(NotificationCommand::ForceClose { .. }) => {
+                    w.kill();
+                    out.push(1);
+                }
+                _ => out.push(0),
+            },
+            9 => {
+                if let Some(p) = &w.pipes {
+                    let mut g = p[x].lock().unwrap();
+                    g.wgate = a[2] != 0;
+                    g.rgate = a[3] != 0;
+                }
+                out.push(0);
+            }
+            10 => {
+                if w.per == 0 {
+                    out.push(1);
+                } else {
+                    w.kill();
+                    out.push(0);
+                }
+            }
+            // the protocol takes a command but its force_close() fails (connection already gone)
+            11 => match w.eps[x].side.command_rx.try_recv() {
+                Ok(NotificationCommand::ForceClose { .. }) => out.push(1),
+                _ => out.push(0),
+            },
+            _ => unreachable!(),
+        }
+        w.dump(&mut out);
+        for x in [0usize, 1] {
+            fb.pending[x] = w.eps[x].futs.iter().map(|(id, _)| *id).collect();
+            fb.open[x] = w.eps[x].sink_per.is_some();
+            fb.alive[x] = w.alive(x);
+        }
+    }
+    let pops = take_pops();
+    let hints = w
+        .conn_ids
+        .iter()
+        .map(|id| pops.iter().filter(|(s, _)| s == id).map(|(_, m)| *m).collect())
+        .collect();
+    (done, out, hints)
+}
+
+fn run_src(ca: [u64; 5], cb: [u64; 5], src: &mut dyn StepSrc) -> (Vec<u64>, Vec<u64>) {
+    let _ = take_pops();
+    let r = catch_unwind(AssertUnwindSafe(|| {
+        let rt = tokio::runtime::Builder::new_current_thread().enable_all().build().unwrap();
+        rt.block_on(run_steps(ca, cb, src))
+    }));
+    match r {
+        Ok((steps, trace, hints)) => (encode_sched(&ca, &cb, &steps, &hints), trace),
+        Err(_) => (encode_sched(&ca, &cb, &[], &[]), vec![PANIC_MARK]),
+    }
+}
+
+fn run_sched(c: &[u64]) -> (Vec<u64>, Vec<u64>) {
+    let Some((ca, cb, steps)) = parse_sched(c) else {
+        return (c.to_vec(), vec![0]);
+    };
+    let (c2, t) = run_src(ca, cb, &mut Fixed(steps.iter().cloned().collect()));
+    if t == vec![PANIC_MARK] {
+        return (encode_sched(&ca, &cb, &steps, &[]), t);
+    }
+    (c2, t)
+}
+
+/// Generator of scheduler cases. The steps are chosen while the case runs, so that polls and drops
+/// name futures that are really pending and most sends happen while the stream is open; the emitted
+/// case contains the executed steps, which is all the model sees.
+struct SGen {
+    rng: Rng,
+    cfgs: [[u64; 5]; 2], // index x
+    big: bool,
+    single: bool,
+    only_mode: [u64; 2],
+    nsteps: usize,
+    emitted: usize,
+    tag: u64,
+    next_id: u64,
+    queue: std::collections::VecDeque<Vec<u64>>,
+    // a stretch during which one Connection is not polled (its queues and waiters build up)
+    starve: Option<(u64, u64)>,
+}
+
+impl SGen {
+    fn new(mut rng: Rng, thorough: bool) -> Self {
+        let big = rng.chance(25);
+        let single = rng.chance(35);
+        let only_mode = [rng.below(2), rng.below(2)];
+        let mut cfgs = [[0u64; 5]; 2];
+        for c in cfgs.iter_mut() {
+            let mx = if big { rng.pick(&[30_000u64, 50_000]) } else { rng.pick(&[8u64, 16, 64, 100]) };
+            *c = [rng.pick(&[1u64, 2, 16]), rng.pick(&[1u64, 2, 3, 16]), rng.pick(&[1u64, 4, 64]), rng.pick(&[1u64, 2, 64]), mx];
+        }
+        let nsteps = if thorough { rng.range(40, 500) } else { rng.range(20, 140) } as usize;
+        let mut queue = std::collections::VecDeque::new();
+        if rng.chance(92) {
+            let first = rng.below(2);
+            queue.push_back(vec![6, first]);
+            queue.push_back(vec![6, 1 - first]);
+            if rng.chance(88) {
+                queue.push_back(vec![5, 1, 128]);
+                queue.push_back(vec![5, 0, 128]);
+            }
+        }
+        SGen { rng, cfgs, big, single, only_mode, nsteps, emitted: 0, tag: 0, next_id: 0, queue, starve: None }
+    }
+
+    fn size(&mut self, x: usize) -> u64 {
+        let own = self.cfgs[x][4];
+        let other = self.cfgs[1 - x][4];
+        let m = own.min(other);
+        let rng = &mut self.rng;
+        match rng.below(100) {
+            0..=2 => own + rng.range(1, 3),
+            3..=6 => m + 1,
+            7..=12 => m.max(4),
+            13..=18 => 4,
+            _ => if self.big { rng.range(m / 2, m) } else { rng.range(4, m.max(4)) },
+        }
+    }
+
+    /// Budget of a Connection poll: mostly unconstrained, else what is left of tokio's 128 operations.
+    fn conn_budget(&mut self) -> u64 {
+        if self.rng.chance(60) {
+            UNLIMITED
+        } else {
+            self.rng.pick(&[0u64, 1, 1, 2, 3, 5, 9, 128])
+        }
+    }
+
+    fn send(&mut self, x: u64, mode: u64) -> Vec<u64> {
+        self.tag += 1;
+        let m = if self.single { self.only_mode[x as usize] } else { mode };
+        let sz = self.size(x as usize);
+        if m == 0 {
+            vec![0, x, self.tag, sz]
+        } else {
+            self.next_id += 1;
+            vec![1, x, self.next_id, self.tag, sz]
+        }
+    }
+
+    fn fill(&mut self, fb: &Feedback) {
+        let x = self.rng.below(2);
+        let xi = x as usize;
+        if let Some((sx, left)) = self.starve {
+            self.starve = if left == 0 { None } else { Some((sx, left - 1)) };
+        }
+        // both streams closed: reopen soon, but leave room for sends to a closed stream
+        if !fb.alive[0] && !fb.alive[1] && self.rng.chance(35) {
+            self.queue.push_back(vec![6, x]);
+            self.queue.push_back(vec![6, 1 - x]);
+            self.queue.push_back(vec![5, 1, 128]);
+            self.queue.push_back(vec![5, 0, 128]);
+            return;
+        }
+        if fb.alive[xi] && !fb.open[xi] && self.rng.chance(50) {
+            self.queue.push_back(vec![5, x, 128]);
+            return;
+        }
+        if !fb.pending[xi].is_empty() && self.rng.chance(22) {
+            // the woken sender runs: mostly the oldest one, as the semaphore is fair
+            let p = &fb.pending[xi];
+            let id = if self.rng.chance(70) { p[0] } else { p[self.rng.below(p.len() as u64) as usize] };
+            self.queue.push_back(vec![2, x, id]);
+            if self.rng.chance(50) {
+                let b = self.conn_budget();
+                self.queue.push_back(vec![4, x, b]);
+            }
+            return;
+        }
+        match self.rng.below(100) {
+            0..=13 => {
+                let s = self.send(x, 0);
+                self.queue.push_back(s);
+            }
+            14..=27 => {
+                let s = self.send(x, 1);
+                self.queue.push_back(s);
+            }
+            28..=31 => {
+                for _ in 0..self.rng.range(2, 12) {
+                    let m = self.rng.below(2);
+                    let s = self.send(x, m);
+                    self.queue.push_back(s);
+                }
+            }
+            32..=43 => {
+                // poll a pending future: the oldest, the newest or any
+                let p = &fb.pending[xi];
+                if !p.is_empty() {
+                    let id = match self.rng.below(3) {
+                        0 => p[0],
+                        1 => p[p.len() - 1],
+                        _ => p[self.rng.below(p.len() as u64) as usize],
+                    };
+                    self.queue.push_back(vec![2, x, id]);
+                } else if self.rng.chance(10) {
+                    self.queue.push_back(vec![2, x, self.rng.below(self.next_id + 2)]);
+                }
+            }
+            44..=48 => {
+                let p = &fb.pending[xi];
+                if !p.is_empty() {
+                    let id = if self.rng.chance(40) { p[0] } else { p[self.rng.below(p.len() as u64) as usize] };
+                    self.queue.push_back(vec![3, x, id]);
+                } else if self.rng.chance(10) {
+                    self.queue.push_back(vec![3, x, self.rng.below(self.next_id + 2)]);
+                }
+            }
+            49..=66 => {
+                let b = self.conn_budget();
+                if self.starve.map(|(sx, _)| sx == x).unwrap_or(false) {
+                    self.queue.push_back(vec![4, 1 - x, b]);
+                } else {
+                    self.queue.push_back(vec![4, x, b]);
+                }
+            }
+            67..=80 => {
+                let b = self.rng.pick(&[0u64, 1, 1, 2, 3, 128, 128, 128, 128]);
+                self.queue.push_back(vec![5, x, b]);
+            }
+            81..=82 => self.queue.push_back(vec![6, x]),
+            83 => {
+                if self.rng.chance(60) {
+                    self.queue.push_back(vec![7, x]);
+                }
+            }
+            84..=85 => self.queue.push_back(vec![8, x]),
+            86 => self.queue.push_back(vec![11, x]),
+            87..=92 => self.queue.push_back(vec![9, x, self.rng.chance(55) as u64, self.rng.chance(55) as u64]),
+            93 => {
+                if self.rng.chance(40) {
+                    self.queue.push_back(vec![10]);
+                }
+            }
+            94..=95 => {
+                if self.starve.is_none() {
+                    self.starve = Some((x, self.rng.range(5, 40)));
+                }
+            }
+            _ => {
+                // a fair stretch: both Connections and both users run for a while
+                for _ in 0..self.rng.range(2, 8) {
+                    self.queue.push_back(vec![4, 1, UNLIMITED]);
+                    self.queue.push_back(vec![4, 0, UNLIMITED]);
+                    self.queue.push_back(vec![5, self.rng.below(2), 128]);
+                }
+            }
+        }
+    }
+}
+
+impl StepSrc for SGen {
+    fn next(&mut self, fb: &Feedback) -> Option<Vec<u64>> {
+        if self.emitted >= self.nsteps || self.tag > 60_000 {
+            return None;
+        }
+        let mut guard = 0;
+        while self.queue.is_empty() && guard < 1000 {
+            self.fill(fb);
+            guard += 1;
+        }
+        let s = self.queue.pop_front()?;
+        self.emitted += 1;
+        Some(s)
+    }
+}
+
+fn gen_run_sched(rng: Rng, thorough: bool) -> (Vec<u64>, Vec<u64>) {
+    let mut g = SGen::new(rng, thorough);
+    let (ca, cb) = (g.cfgs[1], g.cfgs[0]);
+    run_src(ca, cb, &mut g)
+}
+
 // ---------------------------------------------------------------- generator
 
 fn gen_case(rng: &mut Rng, thorough: bool) -> Vec<u64> {
@@ -623,24 +1350,15 @@ fn gen_case(rng: &mut Rng, thorough: bool) -> Vec<u64> {
     let cap_a = rng.pick(&[1u64, 2, 16]);
     let cap_n = rng.pick(&[1u64, 4, 64]);
     let big = rng.chance(30);
-    // Which receiver `tokio::select!` polls first is random and is read back from the carrier
-    // (the hint section of the emitted case). A pop is invisible when the sender's substream
-    // refuses the notification (larger than max_out) before the next flush, so such
-    // notifications are generated only in cases that use a single sending mode; mixed-mode
-    // cases exceed only the receiver's maximum.
+    // Which receiver `tokio::select!` polls first is random; the choices are read back from the log
+    // kept by the cfg(verif) hook and become the hint section of the emitted case.
     let single = rng.chance(35);
     let only_mode = rng.below(2);
     let max_out = if big { rng.pick(&[30_000u64, 50_000]) } else { rng.pick(&[8u64, 16, 64, 100]) };
-    let max_in = if single {
-        if big {
-            if rng.chance(20) { max_out - 10_000 } else { max_out }
-        } else if rng.chance(25) {
-            rng.pick(&[6u64, 8, 16, 200])
-        } else {
-            max_out
-        }
-    } else if rng.chance(35) {
-        if big { max_out - 10_000 } else { (max_out / 2).max(5) }
+    let max_in = if big {
+        if rng.chance(25) { max_out - 10_000 } else { max_out }
+    } else if rng.chance(30) {
+        rng.pick(&[6u64, 8, 16, 200])
     } else {
         max_out
     };
@@ -650,8 +1368,8 @@ fn gen_case(rng: &mut Rng, thorough: bool) -> Vec<u64> {
     let m = max_out.min(max_in);
     let size = |rng: &mut Rng| -> u64 {
         match rng.below(100) {
-            0..=4 => if single { max_out + rng.range(1, 3) } else { rng.range(m, max_out).max(4) },
-            5..=8 => if single { m + 1 } else { (m + 1).min(max_out).max(4) },
+            0..=4 => max_out + rng.range(1, 3), // refused by the sender's substream
+            5..=8 => m + 1,                     // just beyond the smaller maximum
             9..=14 => m.max(4),
             15..=19 => 4,
             _ => if big { rng.range(m / 2, m) } else { rng.range(4, m.max(4)) },
@@ -755,16 +1473,19 @@ pub fn main(args: &Args) {
         stored = read_cases(Path::new(d));
     }
     for c in stored.iter() {
-        let (c, t) = run_case(c);
+        let (c, t) = if c.first() == Some(&SCHED_MARK) { run_sched(c) } else { run_case(c) };
         out.emit(&c, &t);
     }
     if args.str("replay").is_some() {
         return;
     }
-    for _ in 0..ncases {
+    for i in 0..ncases {
         let mut r = rng.fork();
-        let c = gen_case(&mut r, thorough);
-        let (c, t) = run_case(&c);
+        let (c, t) = if i % 2 == 0 {
+            run_case(&gen_case(&mut r, thorough))
+        } else {
+            gen_run_sched(r, thorough)
+        };
         out.emit(&c, &t);
     }
 }
